@@ -1,6 +1,9 @@
 import os, re
 import runner as R
 from props import *
+import C10_gen
+
+LEAN_MODULES = ['C10'] + C10_gen.LEAN_MODULES
 
 MANIFEST = dict(
     text="Lean: one step function per subject kind (publish, behavior, replay N, async, unicast N; a line-by-line reading of subject_*.go and of the subscriber gate) "
@@ -84,6 +87,7 @@ def lin_verdicts(ctx, name, triples):
 def check(ctx):
     reproduced = ' '.join(ctx.known)
     extra = {}
+    gen = C10_gen.parts(ctx)
 
     # ---- (K) sequential correspondence: real subject = model, on every generated sequence
     rows = R.run_kind(ctx, 'subject')
@@ -163,12 +167,14 @@ def check(ctx):
     extra['concurrent_histories'] = dict(total=len(triples), with_overlapping_calls=overl, verdicts=counts,
                                          label='search/validation (brute-force linearizability check of recorded histories); the proof is C10.subjects_linearizable')
     return dict(
-        rule='sequential: corpus + all sensible sequences of length <= 5 (quick) / <= 6 (thorough) over {N1,N2,E1,C,S0,S1,U0,U1} + seeded longer sequences with 3 subscribers, '
+        search=gen['search'],
+        rule=gen['rule_part'] + '; sequential: corpus + all sensible sequences of length <= 5 (quick) / <= 6 (thorough) over {N1,N2,E1,C,S0,S1,U0,U1} + seeded longer sequences with 3 subscribers, '
              'x {publish, behavior(9), replay 1/2/unlimited, async, unicast 1/2/unlimited} (thorough adds sizes 0 and 3); compared after every step: per-subscriber traces with contexts, drop-hook sequence, '
              'CountObservers/HasObserver/IsClosed/HasThrown/IsCompleted; oracle: Grammar of every subscriber trace; definition fields dev/pin/reg/late recomputed per case. '
              'concurrent: seeded 2-4 goroutine histories (<= 10 operations) per kind and buffer size, call/return stamps, verdict ok|uu|micro|none from the Lean driver; '
              'non-trivial = sequence subscribes, publishes and delivers something / history has overlapping calls',
         assumptions=[
+            'the translator go/extract/subjgen.go is faithful on the statement forms it accepts; its output is checked against the hand-written step functions by the kernel (RoProps/C10gen)',
             'subscriber identities are fresh recording observers subscribed at most once; subscriber callbacks do not call back into the subject (they run inside s.mu)',
             'the linearizability theorem is conditional on atomic steps: the premise is established for Subscribe/Next/Error/Complete of publish, behavior, replay, async by the regenerated lock skeletons (subjects_wellLocked); '
             'Unsubscribe and unicast deliveries are outside it (witness theorems, scripted schedules, known findings)',
